@@ -144,6 +144,12 @@ def finish(a, res, src, sid, meta):
     if confirmed and not src.startswith("/verif/seeded"):
         d = f"/verif/seeded/{sid}"
         os.makedirs(d, exist_ok=True)
+        try:  # keep what was recorded about cross catches
+            prev = json.load(open(os.path.join(d, "meta.json")))
+            if "checks_to_run" in prev:
+                meta["checks_to_run"] = prev["checks_to_run"]
+        except Exception:
+            pass
         for fn in os.listdir(src):
             shutil.copy(os.path.join(src, fn), os.path.join(d, fn))
         meta["verified"] = {k: res[k] for k in ("time", "repo_head", "demo_pristine", "demo_patched", "suite") if k in res}
